@@ -154,6 +154,19 @@ type world struct {
 	wiring  [N][]src // ordered inputs of struct nodes (array entries in order)
 	wver    [N]int   // bumped on every re-wiring of the node
 	lastSig [N]string
+	// the caller's message buffer: every world but the "fresh" one hands its update messages over in
+	// one re-used buffer (a connection's receive buffer), same offset every time — a parameter that
+	// decodes its message owns the decoded value, not the bytes it was decoded from
+	reuse  bool
+	msgbuf [64]byte
+}
+
+func (w *world) msg(s string) []byte {
+	if !w.reuse || len(s) > len(w.msgbuf) {
+		return []byte(s)
+	}
+	n := copy(w.msgbuf[:], s)
+	return w.msgbuf[:n:n]
 }
 
 func (w *world) out(n int) nodes.NodeOutput[string] {
@@ -210,7 +223,7 @@ var structNodes = []int{A, B, C, D, E, F, G, H}
 
 // build constructs the graph. seed selects a (deliberately non-initial) starting state.
 func build(seed string) *world {
-	w := &world{}
+	w := &world{reuse: seed != "fresh"}
 	w.p = &parameter.Value[string]{Name: "p", DefaultValue: "p0"}
 	w.pval = "p0"
 	if seed == "flag" {
@@ -425,7 +438,7 @@ func apply(w *world, o Op, step int) (enabled bool, probs []problem) {
 	case "set":
 		switch o.A {
 		case P:
-			w.p.ApplyMessage([]byte(fmt.Sprintf("%q", "p"+o.S)))
+			w.p.ApplyMessage(w.msg(fmt.Sprintf("%q", "p"+o.S)))
 			w.pval = "p" + o.S
 		case Q:
 			w.q.Set("q" + o.S)
@@ -436,7 +449,7 @@ func apply(w *world, o Op, step int) (enabled bool, probs []problem) {
 				panic(err)
 			}
 		case R:
-			if _, err := w.r.ApplyMessage([]byte(o.S)); err != nil {
+			if _, err := w.r.ApplyMessage(w.msg(o.S)); err != nil {
 				panic(err)
 			}
 		}
@@ -446,7 +459,7 @@ func apply(w *world, o Op, step int) (enabled bool, probs []problem) {
 		// is the parameter's business; what the property demands is that reads afterwards still agree
 		// with a from-scratch evaluation of whatever the parameter now reports.
 		before := fmt.Sprint(w.r.Value())
-		if _, err := w.r.ApplyMessage([]byte(o.S)); err == nil {
+		if _, err := w.r.ApplyMessage(w.msg(o.S)); err == nil {
 			return false, nil // not rejected: not the operation this entry stands for
 		}
 		if fmt.Sprint(w.r.Value()) != before {
